@@ -269,10 +269,19 @@ func (css *Consensus) setup() {
 		return
 	}
 
+	// Shutdown() closes css.crdt under shutdownLock: publish it under the
+	// lock, and close it here if Shutdown() has already come and gone.
+	css.shutdownLock.Lock()
+	if css.shutdown {
+		css.shutdownLock.Unlock()
+		crdt.Close()
+		return
+	}
 	css.crdt = crdt
+	css.shutdownLock.Unlock()
 
 	clusterState, err := dsstate.New(
-		css.crdt,
+		crdt,
 		// unsure if we should set something else but crdt is already
 		// namespaced and this would only namespace the keys, which only
 		// complicates things.
@@ -286,7 +295,7 @@ func (css *Consensus) setup() {
 	css.state = clusterState
 
 	batchingState, err := dsstate.NewBatching(
-		css.crdt,
+		crdt,
 		"",
 		dsstate.DefaultHandle(),
 	)
